@@ -48,6 +48,7 @@ fn channel_trace(sys: &Sys) -> String {
             Ob::StreamEnd { stream } => streams[*stream].push_str("END;"),
             Ob::Ctx { cmd, res } => ctx.push_str(&format!("{}={};", cmd, res)),
             Ob::Panic { task, msg } => ctx.push_str(&format!("PANIC {} {};", task, msg)),
+            Ob::Broken { rule, detail } => ctx.push_str(&format!("BROKEN {} {};", rule, detail)),
         }
     }
     format!("W[{}] O{:?} S{:?} C[{}]", wire, ops, streams, ctx)
